@@ -11,8 +11,7 @@ KERNEL_SCAN = ["ShuttleModel/Kernel.lean", "ShuttleModel/Clock.lean", "ShuttleMo
 
 
 def available_profiles():
-    return [p for p in ("kernel", "locks", "sems", "channels", "condvar", "barrier", "once", "scope", "tls", "deadlocks")
-            if p in gen.PROFILES]
+    return list(gen.PROFILES)
 
 
 def std_streams(rng, tier, pid, kinds=("random", "pct", "rr", "dfs"), per_quick=60, per_thorough=1200, extra_cfg=None):
